@@ -17,7 +17,12 @@ def fn_kind(f, fn_names=None):
         n = fn_names.get(id(f))
         if n is not None:
             return n
-    return getattr(f, '_sim_kind', None) or 'callable'
+    k = getattr(f, '_sim_kind', None)
+    if k:
+        return k
+    if 'LambdaOp' in getattr(f, '__qualname__', ''):
+        return 'lambda'         # a program lambda created in an unmonitored (twin) universe
+    return 'callable'
 
 
 def canon(o, fn_names=None, _seen=None):
